@@ -192,7 +192,7 @@ def main(argv=None):
     ap.add_argument("--src", default=None)
     ap.add_argument("--replay", default=None)
     ap.add_argument("--no-evidence", action="store_true")
-    ap.add_argument("--jobs", type=int, default=min(16, os.cpu_count() or 4))
+    ap.add_argument("--jobs", type=int, default=int(os.environ.get("PYVC_JOBS", min(16, os.cpu_count() or 4))))
     ap.add_argument("-v", action="store_true")
     ap.add_argument("--only", default=None, help="dev: solve only obligations whose name contains this")
     ap.add_argument("--fn", default=None, help="dev: only functions whose key contains this")
